@@ -250,6 +250,6 @@ package mp4
 // (inactive)    ensures[C01] result1 == nil && sr.(*bits.FixedSliceReader).err == nil ==> exists rsv uint32 :: ghost(sr).tr == tfraBody(result0.(*TfraBox), old(ghost(sr).tr), rsv)
 // (inactive)    loop 1 invariant len(b.Entries) == int(i) && i <= nrEntries && cap(b.Entries) == int(nrEntries) && b.LengthSizeOfTrafNum <= 3 && b.LengthSizeOfTrunNum <= 3 && b.LengthSizeOfSampleNum <= 3
 // (inactive)    loop 1 invariant sr.(*bits.FixedSliceReader).err == nil ==> ghost(sr).tr == tfraTr(b.Entries, b.Version, b.LengthSizeOfTrafNum, b.LengthSizeOfTrunNum, b.LengthSizeOfSampleNum, int(i), tfraPreF(b.Version, b.Flags, b.TrackID, b.LengthSizeOfTrafNum, b.LengthSizeOfTrunNum, b.LengthSizeOfSampleNum, nrEntries, old(ghost(sr).tr), sizesBlock>>6))
-// (inactive)  func (*TfraBox).EncodeSW
-// (inactive)    ensures[C01] result == nil && sw.(*bits.FixedSliceWriter).accError == nil ==> ghost(sw).tr == tfraBody(b, trHdr(old(ghost(sw).tr), uint32(b.Size()), b.Type()), uint32(0))
-// (inactive)    loop 1 invariant sw.(*bits.FixedSliceWriter).accError == nil ==> ghost(sw).tr == tfraTr(b.Entries, b.Version, b.LengthSizeOfTrafNum, b.LengthSizeOfTrunNum, b.LengthSizeOfSampleNum, idx(1), tfraPreF(b.Version, b.Flags, b.TrackID, b.LengthSizeOfTrafNum, b.LengthSizeOfTrunNum, b.LengthSizeOfSampleNum, uint32(len(b.Entries)), trHdr(old(ghost(sw).tr), uint32(b.Size()), b.Type()), uint32(0)))
+//@ func (*TfraBox).EncodeSW
+//@   ensures[C01] result == nil && sw.(*bits.FixedSliceWriter).accError == nil ==> ghost(sw).tr == tfraBody(b, trHdr(old(ghost(sw).tr), uint32(b.Size()), b.Type()), uint32(0))
+//@   loop 1 invariant sw.(*bits.FixedSliceWriter).accError == nil ==> ghost(sw).tr == tfraTr(b.Entries, b.Version, b.LengthSizeOfTrafNum, b.LengthSizeOfTrunNum, b.LengthSizeOfSampleNum, idx(1), tfraPreF(b.Version, b.Flags, b.TrackID, b.LengthSizeOfTrafNum, b.LengthSizeOfTrunNum, b.LengthSizeOfSampleNum, uint32(len(b.Entries)), trHdr(old(ghost(sw).tr), uint32(b.Size()), b.Type()), uint32(0)))
